@@ -179,3 +179,51 @@ Definition chk_fun2 (exact : bool) (F : list val -> list val -> list val)
   (ticks : list (list (list val))) (impl : list (list val)) : N :=
   let m := map (fun t => F (nth 0 t []) (nth 1 t [])) ticks in
   verdict (ticks_agree exact impl m) (ticks_agree exact impl m).
+
+(* ------------------------------------------------------------------ reflection of well-formedness
+   The terms translated from the builder's IR dump exist only at run time; their typing side
+   conditions ([wf_s]/[wf_a]) are decided by an executable check, sound by [wf_rb_sound] (PFlows):
+   stream nodes need only ordering facts; aggregation closures over unordered inputs must be one
+   of the vocabulary closures proved commutative. *)
+Fixpoint wf_sb (n : snode) : bool :=
+  match n with
+  | SSrc _ | SIter _ => true
+  | SMap _ x | SFilter _ x | SFilterMap _ x | SInspect x | SWeaken x | SUnique x
+  | SAntiJoin x _ | SFlatMap _ _ x => wf_sb x
+  | SEnumerate x | SGen _ _ x => ord x && wf_sb x
+  | SUnion x y | SJoin x y | SCross x y => wf_sb x && wf_sb y
+  end.
+
+Inductive accode : Type := KPlus | KCount | KOther (f : val -> val -> val).
+Definition acc_interp (c : accode) : val -> val -> val :=
+  match c with KPlus => c_plus | KCount => c_count | KOther f => f end.
+Definition acc_comm_b (c : accode) : bool := match c with KPlus | KCount => true | KOther _ => false end.
+
+Inductive ranode : Type :=
+| RFold (init : val) (c : accode) (x : snode)
+| RReduce (f : val -> val -> val) (x : snode)
+| RFoldKeyed (init : val) (acc : val -> val -> val) (x : snode)
+| RReduceKeyed (f : val -> val -> val) (x : snode)
+| RMap (f : val -> val) (a : ranode).
+
+Fixpoint interp_a (r : ranode) : anode :=
+  match r with
+  | RFold init c x => AFold init (acc_interp c) x
+  | RReduce f x => AReduce f x
+  | RFoldKeyed init acc x => AFoldKeyed init acc x
+  | RReduceKeyed f x => AReduceKeyed f x
+  | RMap f a => AMap f (interp_a a)
+  end.
+
+Fixpoint wf_rab (r : ranode) : bool :=
+  match r with
+  | RFold _ c x => wf_sb x && (ord x || acc_comm_b c)
+  | RReduce _ x => wf_sb x && ord x   (* no commutative+associative reduce closure in the vocabulary *)
+  | RFoldKeyed _ _ x | RReduceKeyed _ x => wf_sb x && ord x
+  | RMap _ a => wf_rab a
+  end.
+
+Inductive rflow : Type := RS (n : snode) | RA (r : ranode).
+Definition rinterp (f : rflow) : flow := match f with RS n => FS n | RA r => FA (interp_a r) end.
+Definition wf_rb (f : rflow) : bool := match f with RS n => wf_sb n | RA r => wf_rab r end.
+Definition chk_wf (f : rflow) : N := if wf_rb f then 0%N else 1%N.
